@@ -239,6 +239,9 @@ func newWorld(r *simrun.Run, prop string) *world {
 		if q.predeclared {
 			q.sizeClasses = pick(t, [][]uint32{{0}, {1, 4}, {1, 2, 8}, {3}})
 			q.stickiness = pick(t, [][]time.Duration{nil, {30 * time.Second}, {30 * time.Second, 5 * time.Second}, {time.Second, time.Minute, time.Minute}})
+			if w.fair && t.Bool(3, 4) {
+				q.stickiness = pick(t, [][]time.Duration{{30 * time.Second, 5 * time.Second}, {time.Second, time.Minute, time.Minute}, {15 * time.Second, 45 * time.Second, 15 * time.Second}, {time.Minute, 25 * time.Second}})
+			}
 			q.maxBG = t.Choice(3)
 			q.bgPriority = int32(pick(t, []int{0, 50, -50}))
 		} else {
